@@ -57,6 +57,35 @@ inductive CmpRes where
   | unordered                    -- partial_cmp gave None (a NaN operand): unit
   | ord (o : Ordering)
 
+/-- `cmp_list` once both indexes have been advanced to their start offsets: element-wise loop while BOTH sequences have an item
+left, then the FULL lengths `n`, `m` of the underlying lists decide (the code compares `len1` with `len2`, not what remains) -/
+def cmpTail : List Nat → List Nat → Nat → Nat → Ordering
+  | x :: xs, y :: ys, n, m => if x < y then .lt else if x > y then .gt else cmpTail xs ys n m
+  | _, _, n, m => compare n m
+
+/-- `cmp_list this left right left_start right_start …` as the Slice/Slice arm of `perform_comparison` calls it: only the START of
+each range takes part (the ends are read by `get_range` and dropped) -/
+def cmpListFrom (a b : List Nat) (i j : Nat) : Ordering := cmpTail (a.drop i) (b.drop j) a.length b.length
+
+/-- the `(start, _, range_len)` that `get_range` returns exists: both ends integers whose extent does not overflow; modelled for
+non-negative starts (a negative or fractional start makes the data implementations' item getters fail, each in its own way) -/
+def sliceStart : Val F → Option Nat
+  | .range (.num (.int s)) (.num (.int e)) =>
+      if 0 ≤ s ∧ InRange (e - s) ∧ InRange (e - s + 1) then some s.toNat else none
+  | _ => none
+
+/-- Slice/Slice arm of `perform_comparison`: two slices of text or two slices of bytes are ordered by `cmp_list` from their start
+offsets; slices over anything else are not ordered -/
+def compareSlices (lv lr rv rr : Val F) : CmpRes :=
+  match lv, rv with
+  | .chars a, .chars b => match sliceStart lr, sliceStart rr with
+    | some i, some j => .ord (cmpListFrom a b i j)
+    | _, _ => .foreign
+  | .bytes a, .bytes b => match sliceStart lr, sliceStart rr with
+    | some i, some j => .ord (cmpListFrom a b i j)
+    | _, _ => .foreign
+  | _, _ => .foreign
+
 def compareVals (l r : Val F) : CmpRes :=
   match l, r with
   | .num a, .num b => match Number.partialCmp fo a b with
@@ -66,6 +95,7 @@ def compareVals (l r : Val F) : CmpRes :=
   | .byte a, .byte b => .ord (compare a b)
   | .chars a, .chars b => .ord (cmpList a b)
   | .bytes a, .bytes b => .ord (cmpList a b)
+  | .slice lv lr, .slice rv rr => compareSlices lv lr rv rr
   | _, _ => .foreign
 
 def cmpOp (accept : Ordering → Bool) (l r : Val F) : Val F :=
